@@ -7,7 +7,7 @@ demo=$(ls demo_*.py | head -1)
 echo "== diffstat: $(git diff --stat | tail -1)"
 echo "== tests with change: $(PYTHONPATH=$wt /venv/bin/python -m pytest -q -p no:cacheprovider 2>&1 | tail -1)"
 PYTHONPATH=$wt timeout 600 /venv/bin/python $demo >/dev/null 2>&1; echo "== demo with change rc=$?"
-git stash -q; PYTHONPATH=$wt timeout 600 /venv/bin/python $demo >/dev/null 2>&1; echo "== demo without change rc=$?"; git stash pop -q
+git diff > /tmp/try_wt_$$.patch; git apply -R /tmp/try_wt_$$.patch; PYTHONPATH=$wt timeout 600 /venv/bin/python $demo >/dev/null 2>&1; echo "== demo without change rc=$?"; git apply /tmp/try_wt_$$.patch; rm -f /tmp/try_wt_$$.patch
 cd /verif
 for c in "$@"; do
   out=$(PYTHONPATH=$wt VERIF_NOCONFIRM=${NOCONFIRM:-0} timeout 3000 ./check "$c" --tier ${TIER:-quick} 2>&1); rc=$?
